@@ -1,38 +1,7 @@
-From Coq Require Import List Bool PArith NArith FMapPositive.
-From Texel Require Import Ctl.Uci Ctl.Engine Ctl.Dec Ctl.CtlSpec Ctl.Reach.
+From Coq Require Import ZArith List Bool Arith Lia.
+From Texel Require Import Workers.Workers Workers.WorkersLemmas.
 Import ListNotations.
-Local Open Scope N_scope.
-
-Definition nb (b : bool) : N := if b then 1 else 0.
-Definition n_lim (l : lim) : N := match l with LimNone => 0 | LimSome => 1 | LimUnknown => 2 end.
-Definition n_out (o : output) : N := match o with OUciOk => 0 | OReadyOk => 1 | OInfo => 2 | OInfoStr => 3 | OBestmove => 4 end.
-Definition n_action (a : action) : N :=
-  match a with
-  | AOut o => n_out o | AInitEngine => 5 | ADeref => 6 | AWaitReady => 7 | ASetOption k => 8 + nb k
-  | ATimeLimit0 => 10 | ASetInfinite b => 11 + nb b | ASetInfiniteLim => 13 | ASetPonder b => 14 + nb b
-  | AWaitStop => 16 | AWaitOptionsSet => 17 | AComputeLimits l => 18 + n_lim l | ANewSearch => 21
-  | AEvalInfo => 22 | AHandOver => 23 | ASetQuit => 24 | ALoopTest => 25 | AEngineQuit => 26
-  end.
-Definition n_epc (e : epcT) : N :=
-  match e with
-  | EWait => 0 | ECheckQuit => 1 | ESetOpt b => 2 + nb b | EApply b => 4 + nb b | ECheckSearch => 6
-  | EBook => 7 | ESearch => 8 | EHold b => 9 + nb b | EFinish b => 11 + nb b | EStopAck => 13
-  | EClearSearch => 14 | EExited => 15
-  end.
-Definition n_bits (l : list bool) : N := fold_left (fun a b => 2 * a + nb b) l 0.
-Definition n_state (s : state) : N :=
-  let a := fold_left (fun a x => 32 * a + n_action x + 1) (upc s) 0 in
-  let b := n_bits [udone s; uquit s; engine s; sc s; ponder s; infinite s; stopreq s; search s; quitFlag s;
-                   notified s; pending s; finished s; crashed s; exited s] in
-  ((a * 16 + n_epc (epc s)) * 4 + n_lim (limits s)) * 16384 + b.
-
-Definition pst := (state * bool)%type.
-Definition pst_eqb (a b : pst) : bool := (Bool.eqb (snd a) (snd b) && state_eqb (fst a) (fst b))%bool.
-Definition pst_hash (p : pst) : positive := N.succ_pos (2 * n_state (fst p) + nb (snd p)).
-Definition psuccs (g : bool) (p : pst) : list (label * pst) :=
-  map (fun ls => (fst ls, (snd ls, held_upd (snd p) (fst ls)))) (all_steps g (fst p)).
-Definition p0 : pst := (init, false).
-
-Definition R (g : bool) := reach pst label pst_eqb pst_hash (psuccs g) p0 400.
-Time Eval vm_compute in (length (R false), length (R true)).
-Time Eval vm_compute in (length (reach pst label pst_eqb pst_hash (psuccs true) p0 40)).
+Goal forall N parent s lb s', lstep N parent s lb = Some s' -> True.
+intros. Time step_inv_fine H.
+Show.
+all: exact I. Qed.
